@@ -15,6 +15,7 @@ from . import store, spec_h5
 RESERVED_LISTS = ('taxonomy', 'Taxonomy', 'KEGG_Pathways', 'collapsed_ids')
 GEN_BY = ['sim', 'BIOM-Format 2.1.16-dev', 'a tool, v1.0 (β)', 'x/y z',
           'q "quoted" \\ back']
+GEN_BY += [' padded ', 'tab\tin', '_x_']
 
 
 def h5_grammar_ok(ref):
